@@ -2,8 +2,9 @@ package main
 
 // C08 — inventory of the sources of run-to-run variation in the compile path, regenerated on every
 // run from the d2 source tree the harness is built against (VERIF_REPO or /repo):
-//   * every `range` over a map-typed expression in d2ir, d2compiler, d2graph and lib/textmeasure
-//     (file : function : ordinal within the function + the ranged expression);
+//   * every `range` over a map-typed expression in d2ir, d2compiler, d2graph, d2ast, d2parser, d2format and
+//     lib/textmeasure (file : function : ordinal within the function + the ranged expression + a hash of
+//     the text of the whole statement, so that an edit of an analysed loop is noticed);
 //   * every `go` statement, and every assignment to a package-level variable outside init(), in the
 //     same packages (shared mutable state is what could make concurrent compilations interfere).
 // Types are resolved with go/types: the d2 packages are type-checked from source (same build tags
